@@ -35,7 +35,7 @@ CLAIMED = {
  'C05': dict(
     text='Slice: hmac_cipher::equal is proved to return true exactly when all bytes are equal while visiting every byte (no data-dependent exit); hmac_cipher::decrypt and aes_cipher::decrypt are proved to '
          'accept only when the MAC was computed over the whole message part, compared in full with the trailing tag and matched, to decrypt only after that, and to keep every length derived from the cookie inside the buffers; '
-         'base64url decode (unit base64) is exact.',
+         'base64url decode (unit base64) is exact. The combined-key constructor aes_factory(algo,key) is under contract: both keys are set exactly once with the lengths the primitives need; for a combined key the AES key and the MAC key tile the configured key (every key byte is used, none twice); any other accepted key is expanded with a keyed hash of the WHOLE key.',
     note=TRUST + 'HMAC unforgeability and CBC confidentiality are ASSUMED (crypto objects are stubs that record/range-check arguments). Not covered: session_cookies::load/save, encrypt side, key derivation, '
          'expiry test in the cookie loader, "reveals neither payload nor equality".',
     design='4 (C05/C06)', technique='cbmc code contracts (dfcc): loop contract for the constant-time compare, ghost-recorded MAC-then-decrypt protocol skeleton'),
@@ -55,7 +55,7 @@ CLAIMED = {
  'C12': dict(
     text='Slice: multipart_parser::consume (all states) is memory safe for every chunk, keeps a well-formed (state, position) pair across chunks, reports a refusing file sink as no_room_left and never writes after it, '
          'and satisfies the conservation law bytes-in-file + pending partial boundary match == bytes consumed (unbounded, loop contracts); request::on_content_start refuses negative/over-limit Content-Length with 400/413; '
-         'parse_form_urlencoded and util::urldecode are memory safe and exact per token. Exact reconstruction / first boundary occurrence / chunking independence: bounded stand-in (body <= 7 bytes).',
+         'parse_form_urlencoded and util::urldecode are memory safe and exact per token. Exact reconstruction / first boundary occurrence / chunking independence: bounded stand-in (body <= 7 bytes). read_file (the copy of a form-field part into request().post()) returns the whole part from its first byte wherever the stream position was left.',
     note=TRUST + 'Not covered: part-header parsing (process_header, parse_content_disposition: std::string iterator code), temp-file spill, content filters, the 400/413 logic of on_content_progress.',
     design='4 (C01/C02/C12)', technique='cbmc code contracts (dfcc) + nested loop contracts with a conservation invariant; bounded unwinding for byte-exactness'),
  'C13': dict(
